@@ -466,6 +466,25 @@ def stepLine (st : St) (line : String) : St × String :=
         ({ st with bp := some (a', b', c') }, (Tri.mk oa ob oc).fmt)
       | _, _, _ => ({ st with bp := some (a', b', c') }, "err")
     | _, _ => (st, "err")
+  -- the end points between which `ray_trace_one_lor` traces one ray (square / cylindrical field of view)
+  | ["sqchord", f, s, c, sn, vx] =>
+    match parseHex f, parseHex s, parseHex c, parseHex sn, parseHex vx with
+    | some f, some s, some c, some sn, some vx =>
+      match squareChord f s c sn vx with
+      | some (lo, hi) => (st, s!"some {fmtQ lo} {fmtQ hi}")
+      | none =>
+        if rabs c < milli ∨ rabs sn < milli then (st, "none")
+        else
+          let e := squareEnds f s c sn
+          (st, s!"none {fmtQ e.1} {fmtQ e.2}")
+    | _, _, _, _, _ => (st, "bad-num")
+  | ["cylchord", f, s] =>
+    match parseHex f, parseHex s with
+    | some f, some s =>
+      match cylChordSq f s with
+      | some m => (st, s!"some {fmtQ m}")
+      | none => (st, "none")
+    | _, _ => (st, "bad-num")
   | _ => (st, "bad-op")
 
 partial def loop (h : IO.FS.Stream) (st : St) : IO Unit := do
